@@ -282,6 +282,27 @@ pub fn total_coll_edge(s: &mut Scen, r: &mut Rng) -> bool {
     match r.below(4) { 0 => s.del(17), 1 => s.put(17, c_uint(edge_amount(r))), 2 => { let v = s.get(17).and_then(|v| as_u64(v)).unwrap_or(5_000_000); s.put(17, c_uint(v.wrapping_add(1))) } _ => s.put(17, c_uint(r.range(1, 9_000_000))) }
     true
 }
+/// Legacy-format outputs with a zero quantity (Babbage/Conway): collateral return and ordinary outputs;
+/// a Plutus-script witness is added when there is none so that the collateral path is taken
+pub fn legacy_zero_quantity(s: &mut Scen, r: &mut Rng) -> bool {
+    if !s.is_post_alonzo() { return false }
+    let z = Some(vec![(r.bytes(28), vec![(rb(r, 0, 4), 0u64), (rb(r, 1, 3), if r.chance(1, 2) { 0 } else { 3 })])]);
+    let addr = some_key_addr(s);
+    if r.chance(2, 3) {
+        let coin = if r.chance(1, 2) { 0 } else { r.below(3_000_000) };
+        s.put(16, enc_out(&OutIr { legacy: true, addr, coin, assets: z, datum: None, sref: None }));
+        if s.get(13).is_none() {
+            let (h, ix) = fresh_utxo(s, r, 9_000_000, some_key_addr(s), None);
+            s.put(13, enc_inputs(false, &[(h, ix)]));
+        }
+        if s.wget(3).is_none() && s.wget(6).is_none() && s.wget(7).is_none() { s.wput(6, c_array(&[c_bytes(&r.bytes(12))])); }
+    } else {
+        let mut o = s.outputs();
+        o.push(OutIr { legacy: true, addr, coin: 2_000_000, assets: z, datum: None, sref: None });
+        s.set_outputs(&o);
+    }
+    true
+}
 pub fn coll_return_edge(s: &mut Scen, r: &mut Rng) -> bool {
     if !s.is_post_alonzo() { return false }
     if s.get(16).is_some() && r.chance(1, 4) { s.del(16); return true }
@@ -689,7 +710,7 @@ pub fn all_mutators() -> Vec<(&'static str, Mutator)> {
         ("fee_edge", fee_edge), ("ttl_edge", ttl_edge), ("vstart_edge", vstart_edge), ("netid_field", netid_field), ("mint_edge", mint_edge),
         ("aux_edge", aux_edge), ("aux_consistent", aux_consistent), ("sdh_edge", sdh_edge), ("reqsig_add", reqsig_add),
         ("coll_drop", coll_drop), ("coll_add_present", coll_add_present), ("coll_utxo_edge", coll_utxo_edge),
-        ("total_coll_edge", total_coll_edge), ("coll_return_edge", coll_return_edge),
+        ("total_coll_edge", total_coll_edge), ("coll_return_edge", coll_return_edge), ("legacy_zero_quantity", legacy_zero_quantity),
         ("wit_vkey_len", wit_vkey_len), ("wit_sig_flip", wit_sig_flip), ("wit_vkey_remove", wit_vkey_remove), ("wit_vkey_extra", wit_vkey_extra),
         ("wit_drop_entry", wit_drop_entry), ("wit_add_datum", wit_add_datum), ("wit_add_script", wit_add_script),
         ("redeemer_exunits", redeemer_exunits), ("redeemer_ptr", redeemer_ptr),
